@@ -4,6 +4,7 @@ type `SF` (finite binary32 numbers, `Rrtk/Thm/Lemmas/SoftScalar.lean`), with the
 -/
 import Rrtk.Thm.C19
 import Rrtk.Thm.Lemmas.SoftScalar
+import Rrtk.Thm.Lemmas.C19More
 set_option linter.unusedSectionVars false
 set_option linter.unusedSimpArgs false
 namespace Rrtk.Thm.C19
